@@ -394,6 +394,119 @@ def full_stack_case(tid, writer, npre, ndeliver, nduring, nafter, cuts):
     return rec
 
 
+def both_directions_case(tid, n_l, n_f, cut, interleave):
+    """C10 with traffic in both directions at once, on the whole stack: both applications listen; the Leader's opens n_l
+    subchannels and the Follower's n_f (interleaved or one side first), each writes two records on each of its subchannels, the
+    link in use is cut (or not) with part of that delivered, one more record on each, everything is closed by its opener, and the
+    run is completed fairly.  At rest every subchannel has appeared once at the other side and *its* acceptor has exactly what
+    was written to it, in order, and nothing else; no opener was handed data nobody wrote to it."""
+    from .dil_full import FullWorld
+    from twisted.internet import protocol as tproto
+    fw = FullWorld(variant=tid)
+    fw.units_first = bool(tid % 2)
+    errors, stray = [], []
+    accepted = {"L": [], "F": []}
+    lost = []
+
+    class P(tproto.Protocol):
+        role = "acceptor"
+
+        def connectionMade(self):
+            self.got = []
+            if self.role == "acceptor":
+                accepted[self.side].append(self)
+
+        def dataReceived(self, data):
+            if self.role == "acceptor":
+                self.got.append(bytes(data))
+            else:
+                stray.append("an opener at %s was handed %r" % (self.side, bytes(data)[:12]))
+
+        def connectionLost(self, reason=None):
+            if self.role == "opener":
+                lost.append(self)
+
+    def fac(side, role):
+        f = tproto.Factory()
+        f.buildProtocol = lambda addr: type("P_%s_%s" % (side, role), (P,), {"side": side, "role": role})()
+        return f
+    fw.do(("AppDilate", "L", 0))
+    fw.do(("AppDilate", "F", 0))
+    rested = fw.run_out()
+    subs = []                  # [side, protocol or None, [payloads issued]]
+    try:
+        for x in ("L", "F"):
+            fw.api[x].listener_for("p").listen(fac(x, "acceptor"))
+        order = (["L", "F"] * max(n_l, n_f)) if interleave else (["L"] * n_l + ["F"] * n_f)
+        left = {"L": n_l, "F": n_f}
+        for x in order:
+            if left[x] <= 0:
+                continue
+            left[x] -= 1
+            ent = [x, None, []]
+            subs.append(ent)
+            d = fw.api[x].connector_for("p").connect(fac(x, "opener"))
+            d.addCallbacks(lambda p, ent=ent: ent.__setitem__(1, p), lambda f: errors.append("connect: %r" % (f.value,)))
+            fw.run_auto_timers()
+    except Exception as e:
+        errors.append("open: %r" % (e,))
+
+    def write_all(k):
+        for i, ent in enumerate(subs):
+            for _ in range(k):
+                payload = b"s%d-%s-%03d:" % (i, ent[0].encode(), len(ent[2])) + bytes([65 + i]) * (3 + 4 * len(ent[2]))
+                ent[2].append(payload)
+                if ent[1] is not None:
+                    try:
+                        ent[1].transport.write(payload)
+                    except Exception as e:
+                        errors.append("write: %r" % (e,))
+        fw.run_auto_timers()
+    write_all(2)
+    if cut:
+        sel = fw.selected_links("L")
+        if sel:
+            link = fw.links[sel[0]]
+            for j in range(cut):
+                for e in (0, 1):
+                    if link.can_deliver(e):
+                        fw.deliver_unit(link, e)
+            fw.do(("Cut", "-", sel[0]))
+    write_all(1)
+    rested = fw.run_out() and rested
+    nclosed = 0
+    for ent in subs:
+        if ent[1] is not None:
+            try:
+                ent[1].transport.loseConnection()
+                nclosed += 1
+            except Exception as e:
+                errors.append("close: %r" % (e,))
+    rested = fw.run_out() and rested
+    st = fw.state()
+    internal = errors + fw.finish()
+    per_issued, per_delivered = [], []
+    for i, ent in enumerate(subs):
+        x, p, issued = ent
+        other = "F" if x == "L" else "L"
+        idx = {pl: k for k, pl in enumerate(issued)}
+        sid = getattr(getattr(p, "transport", None), "_scid", None)
+        acc = [a for a in accepted[other] if getattr(a.transport, "_scid", None) == sid] if sid is not None else []
+        per_issued.append(list(range(len(issued))))
+        per_delivered.append([idx.get(g, -1) for g in acc[0].got] if len(acc) == 1 else ([-2] if len(acc) > 1 else []))
+    nacc = len(accepted["L"]) + len(accepted["F"])
+    if nacc != len(subs):
+        stray.append("%d subchannels were opened, %d appeared" % (len(subs), nacc))
+    quiet = bool(rested and all(ent[1] is not None for ent in subs))
+    rec = {"tid": tid, "kind": "l4", "issued": [], "delivered": [], "goal": quiet,
+           "internal": [x for x in internal if "NoTransition" not in x or "stopped" not in x],
+           "ends": {}, "pendingUnexpected": 0, "scids": {"L": [], "F": []}, "afterCloseOK": True,
+           "lateListen": True, "perSub": {"issued": per_issued, "delivered": per_delivered},
+           "echoes": [], "echoErrors": stray[:4], "closedByOpener": nclosed, "lostAtOpener": len(lost),
+           "mgr": {n: st[n]["mgr"] for n in st}}
+    return rec
+
+
 def paused_burst_case(tid, writer, then):
     """Back-pressure on the receiving side meets records that have already been read: the receiving application pauses its subchannel
     from inside its first dataReceived() while more DATA - and the CLOSE - of the same subchannel are in the same TCP segment (pausing
@@ -1345,6 +1458,17 @@ def run(prop, tier):
                         meta[tid] = {"schedule": [["full-stack-sub", opener, nsubs, offline, close, late, uf]], "config": "full"}
             cov["full_stack_cases"] = n
         if prop == "C10":
+            # family: both directions at once (subchannels opened by the Leader's and by the Follower's application in one session)
+            n = 0
+            for (n_l, n_f, cut, il) in (((1, 1, 0, True), (2, 1, 2, True), (1, 2, 3, False), (2, 2, 1, False)) if quick else
+                                        [(a, b, c, d) for a in (1, 2, 3) for b in (1, 2, 3) for c in (0, 1, 2, 4) for d in (True, False)]):
+                tid += 1
+                n += 1
+                rec = both_directions_case(tid, n_l, n_f, cut, il)
+                rec["origin"], rec["config"] = "family:both-directions", "full"
+                records.append(rec)
+                meta[tid] = {"schedule": [["both-directions", n_l, n_f, cut, il]], "direction": "both", "real_l2": True, "late_listen": None}
+            cov["both_directions_cases"] = n
             # family: the same question on the whole stack (real Connector and connection selection under the Managers)
             n = 0
             for writer in ("L", "F"):
